@@ -538,7 +538,15 @@ class Disc2D:
             for st in ctor.node.body:
                 if isinstance(st, ast.Expr) and isinstance(st.value, ast.Call) and isinstance(st.value.func, ast.Attribute) and st.value.func.attr == "__init__":
                     continue
-                if not any(isinstance(n, ast.Attribute) and isinstance(n.ctx, ast.Store) and isinstance(n.value, ast.Name) and n.value.id == ctor.params[0] and n.attr not in self.so.attrs for n in ast.walk(st)):
+                def _stores_new(tree, sn):
+                    return any(isinstance(n, ast.Attribute) and isinstance(n.ctx, ast.Store) and isinstance(n.value, ast.Name) and n.value.id == sn and n.attr not in self.so.attrs for n in ast.walk(tree))
+                direct = _stores_new(st, ctor.params[0])
+                # ... or through a method of the object the constructor calls (self._build_tables())
+                via = False
+                if isinstance(st, ast.Expr) and isinstance(st.value, ast.Call) and isinstance(st.value.func, ast.Attribute) and isinstance(st.value.func.value, ast.Name) and st.value.func.value.id == ctor.params[0]:
+                    g = proj.resolve(self.fvm_cls, st.value.func.attr)
+                    via = g is not None and g.has_self and _stores_new(g.node, g.params[0])
+                if not direct and not via:
                     continue
                 try:
                     it.exec_block([st], env, ctor, 0)
